@@ -87,7 +87,17 @@ package connectconformance
 
 // expandSuite: a misconfigured suite is an error, never a silent expansion; everything it adds
 // to the library is added by expandCases for a config case that is in the given set.
+// a config case is admitted by a suite: every axis the suite restricts contains the case's
+// value, a suite relying on TLS only meets TLS cases, and the case uses client certificates,
+// Connect GET, the Connect version mode and a receive limit exactly as the suite relies on them
+//@ spec suiteAdmits(s *conformancev1.TestSuite, c configCase) bool =
+//@    (len(s.RelevantProtocols) == 0 || contains(s.RelevantProtocols, c.Protocol)) && (len(s.RelevantHttpVersions) == 0 || contains(s.RelevantHttpVersions, c.Version)) &&
+//@    (len(s.RelevantCodecs) == 0 || contains(s.RelevantCodecs, c.Codec)) && (len(s.RelevantCompressions) == 0 || contains(s.RelevantCompressions, c.Compression)) &&
+//@    (s.ReliesOnTls ==> c.UseTLS) && c.UseTLSClientCerts == s.ReliesOnTlsClientCerts && c.UseConnectGET == s.ReliesOnConnectGet &&
+//@    c.ConnectVersionMode == s.ConnectVersionMode && c.UseMessageReceiveLimit == s.ReliesOnMessageReceiveLimit
 //@ func (*testCaseLibrary).expandSuite
+//@   //# only admitted config cases of the given set are expanded
+//@   assert_at "lib.expandCases(cfgCase, namePrefix, suite.TestCases)": suiteAdmits(suite, cfgCase) && has(configCases, cfgCase)
 //@   requires lib != nil && lib.testCases != nil && lib.testCaseNames != nil && suite != nil && configCases != nil
 //@   requires forall i int :: 0 <= i && i < len(suite.TestCases) ==> suite.TestCases[i] != nil && suite.TestCases[i].Request != nil
 //@   modifies mapof(testCaseLibrary.testCases), mapof(testCaseLibrary.testCaseNames), conformancev1.ClientCompatRequest.*, conformancev1.TLSCreds.*, *string, []string, []bool
